@@ -487,6 +487,19 @@ def run(ctx):
                  sample=dict(struct=cfg["struct"], shape=[cfg["n"], cfg["p"]], k=cfg["k"], B=cfg["B"], seed=cfg["seed"], sdim=cfg["sdim"],
                              center=cfg["center"], standardize=cfg["standardize"], use_coslat=cfg["use_coslat"]))
     run_cases(ctx, cases, meta)
+    # a single member is a member: oriented like the model's modes, whatever orientation the solver gave it (many seeds, every mode retained)
+    for j in range(ctx.n(30, 200)):
+        cfg = make_cfg(rng, force=dict(struct="da1", B=1))
+        cfg["k"] = min(cfg["n"] - 1, cfg["p"])
+        cfg["seed"] = int(rng.integers(0, 2 ** 31))
+        try:
+            data, m = fit_model(cfg)
+            b = run_boot(m, 1, cfg["seed"])
+        except Exception as e:
+            ctx.violation("C20:fit-error:single-member:%s" % C.errkind(e), "EOFBootstrapper(n_bootstraps=1).fit raised %r" % (e,), dict(kind="boot", cfg=cfg))
+            continue
+        ctx.case(dict(cfg, single_member=True), nontrivial=True, tag="da1/B=1/every-mode")
+        oracles(ctx, cfg, m, b, "seed=%d B=1 (every mode)" % cfg["seed"])
     # other seeds give other resamples; negative seeds are refused by numpy
     cfg = make_cfg(rng, force=dict(struct="da1", B=3))
     data, m = fit_model(cfg)
